@@ -16,6 +16,11 @@ def validate_2_arrays(
     # Note: If the input is a pyarrow array, np.asarray produces a read-only ndarray.
     a = np.asarray(a)
     b = np.asarray(b)
+    # Unsigned integers wrap around in differences like y_pred - y_obs.
+    if a.dtype.kind == "u":
+        a = a.astype(np.float64)
+    if b.dtype.kind == "u":
+        b = b.astype(np.float64)
     if a.ndim != b.ndim:
         msg = f"Arrays must have the same dimension, got {a.ndim=} and {b.ndim=}."
         raise ValueError(msg)
